@@ -344,12 +344,12 @@ def procStepCore (st : ProcEng) (t : Tokens) (_impl : Option String) : ProcEng Ã
   | "state" =>
     let apps := sortStr (st.s.apps.map (fun p => s!"{p.1}:{stateStr p.2.state}"))
     let runs := sortStr (st.s.runs.map (fun p => s!"{p.1}:{p.2.app}"))
-    (st, { model := s!"apps={String.intercalate "," apps} runs={String.intercalate "," runs} parked={(st.s.inflight.filter (fun r => !st.tainted.contains r.run)).length}" })
+    (st, { model := s!"apps={String.intercalate "," apps} runs={String.intercalate "," runs} parked={(st.s.inflight.filter (fun r => !st.tainted.contains r.run)).length} badjson=0" })
   | "cleanexit" =>
     let order := sortStr (st.s.runs.map (Â·.1))
     let (s, reqs, ret) := cleanExit st.s (fun _ => .ok) order
     let reqs := reqs.filter (fun r => r.cat != .dataUsage)
-    ({ st with s := s }, { model := s!"returned={if ret then 1 else 0} reqs={canonReqsT st.tainted reqs}" })
+    ({ st with s := s }, { model := s!"returned={if ret then 1 else 0} badjson=0 reqs={canonReqsT st.tainted reqs}" })
   | _ => (st, { model := "bad-op" })
 
 
@@ -463,6 +463,9 @@ def procStep (st0 : ProcEng) (t : Tokens) (impl : Option String) : ProcEng Ã— St
         (if missing.isEmpty then [] else [s!"C01 proc: accepted data was neither acknowledged, nor still in flight, nor in the final flush: {missing.take 3 |>.map (fun (k : String Ã— String Ã— Nat) => k.1 ++ "/" ++ k.2.1 ++ "/" ++ toString k.2.2)}"]) ++
         (if (kvGet (tokenize line) "returned") == some "1" then [] else ["C11 shutdown: the final flush did not return"])
       else []
-    let f4 := if line == "processor-crashed" then ["C10 containment: a message from an agent terminated the processor goroutine (the worker exits, every buffered harvest is lost)"]
+    let f5 := match (kvGet (tokenize line) "badjson").bind String.toNat? with
+      | some n => if n > 0 then ["C08 payload: a request body sent to the collector is not valid JSON"] else []
+      | none => []
+    let f4 := f5 ++ if line == "processor-crashed" then ["C10 containment: a message from an agent terminated the processor goroutine (the worker exits, every buffered harvest is lost)"]
       else if line == "stuck" then ["C10 containment: the processor (or the listener) is wedged"] else []
     (st, { out with specFails := f4 ++ out.specFails ++ f0 ++ f1 ++ f2 ++ f3 })
